@@ -454,7 +454,9 @@ example : ∀ op ∈ cCompHist2, InScopeCH cR cRE OneName op := by
 /-- **The full statement**: every history of public calls on a CompositeFrontend (hence, with the mixin layers of C11 on top, on
 a SolverComposite) is answered as the property statement demands for all the constraints added.  Proved:
 `C12_composite_history_partial` — ANY history of add / satisfiable() / eval / batch_eval / solution / is_true / is_false in which
-each value query is about one variable (calls go on after queries; `CInv` at every step: `C12_call_keeps_invariant`); with `combine`
+each value query is about one variable, and `C12_composite_history_one_owner_partial` — expressions over any number of variables, as
+long as one child at most owns the names when the query is asked (calls go on after queries; `CInv` at every step:
+`C12_call_keeps_invariant`); with `combine`
 proved (`C12_combine_correct`) and every single query right in any state satisfying `CInv` (`C12_eval_correct`,
 `C12_batch_eval_correct`, `C12_solution_correct`, `C12_is_true_correct`, `C12_is_false_correct`).  The invariant is now the one the
 code maintains: the marker clauses of C11's `MCInv` hold under the guard the code uses (`C12_marker_guarded`;
